@@ -602,7 +602,7 @@ func marshalInner(pj *simdjson.ParsedJson, docs []*ref.Node) (what string) {
 		if !ok {
 			return fmt.Sprintf("%s at %s produced invalid JSON: %s", api, p, clip(string(out)))
 		}
-		if got.RenderNumeric() != want.RenderNumeric() {
+		if !ref.NumericEqual(want, got) {
 			return fmt.Sprintf("%s at %s denotes %s, value is %s", api, p, clip(got.RenderNumeric()), clip(want.RenderNumeric()))
 		}
 		return ""
